@@ -44,7 +44,8 @@ def run(F, R, tier):
         spec = json.load(f)
     q = F.crate("quill")
     r06_1(F, q, R, spec)
-    r06_2(q, R, spec)
+    found = r06_2(q, R, spec)
+    r06_7(R, found)
     r06_3(q, R, spec)
     r06_4(q, R, spec)
     r06_5(q, R, spec)
@@ -107,6 +108,7 @@ def r06_2(q, R, spec):
     rid = "R06.2"
     R.rule(rid, "remapper tables: keys are built from names[from] only, values from names[to] only; member descriptors (stored in "
                 "the first namespace) go through remapper_a(0 -> from) on the key side and remapper_a(0 -> to) on the value side")
+    found = {}       # table name -> (body, normaliser, table term, spec env, spec entry): input of R06.7
     # ---- remapper_a
     sa = spec["tables"]["remapper_a"]
     b = q.fn("remapper_a")
@@ -117,6 +119,7 @@ def r06_2(q, R, spec):
         t = dict(res[2]).get("classes") if res and res[0] == "struct" and res[1] == "ARemapperImpl" else None
         if R.anchor(rid, "remapper_a returns ARemapperImpl { classes: <table> }", t is not None, b["sp"]):
             ents = U.table_entries(R, rid, "remapper_a.classes", b, nz, t)
+            found["remapper_a.classes"] = (b, nz, t, env, sa["classes"])
             if ents:
                 k, v, sp = ents[0]
                 _cmp(R, rid, "remapper_a.classes:key", U.parse(sa["classes"]["key"], env), k, sp, "the key is the class name in the `from` namespace")
@@ -135,6 +138,7 @@ def r06_2(q, R, spec):
             _cmp(R, rid, "remapper_b.result:inheritance", U.parse(sb["result.inheritance"], env), rf.get("inheritance"), b["sp"])
         if R.anchor(rid, "remapper_b returns BRemapperImpl { classes: <table>, .. }", t is not None, b["sp"]):
             ents = U.table_entries(R, rid, "remapper_b.classes", b, nz, t)
+            found["remapper_b.classes"] = (b, nz, t, env, sb["classes"])
             sub = {}
             if ents:
                 k, v, sp = ents[0]
@@ -148,6 +152,7 @@ def r06_2(q, R, spec):
                             sub[tbl] = vf[tbl]
             for tbl, tt in sub.items():
                 me = U.table_entries(R, rid, "remapper_b.%s" % tbl, b, nz, tt)
+                found["remapper_b.%s" % tbl] = (b, nz, tt, env, sb[tbl])
                 if not me:
                     continue
                 mk_, mv_, msp = me[0]
@@ -193,6 +198,7 @@ def r06_2(q, R, spec):
         R.inst(rid, "member-key:equivalent", ok, sp=eb["sp"], expect="eq_name && eq_desc", got=got,
                detail="a request matches a stored key iff both the name and the descriptor are equal (overloads are distinct members)")
     R.floor(rid, 3 + 1 + 3 + 2 * 5 + 3)
+    return found
 
 
 # ------------------------------------------------------------------------------------ R06.3
@@ -406,6 +412,241 @@ def r06_5(q, R, spec):
     R.inst(rid, "field-not-public", vis != "Public", sp=adt.get("sp"), got=vis,
            detail="the index field must not be writable from outside the crate")
     R.floor(rid, 4)
+
+# ------------------------------------------------------------------------------------ R06.7
+TABLES = ("remapper_a.classes", "remapper_b.classes", "remapper_b.fields", "remapper_b.methods")
+
+
+def r06_7(R, found):
+    rid = "R06.7"
+    R.rule(rid, "remapper tables are complete: between the creation of a table and the insert that fills it there is exactly one loop, "
+                "over every entry of the source map (no adaptor that drops entries); the insert is skipped only when the element has "
+                "no name in the `from` or the `to` namespace; the loop is left early only by an error")
+    for what in TABLES:
+        f = found.get(what)
+        if not R.anchor(rid, "%s: table located (R06.2)" % what, f is not None):
+            continue
+        b, nz, t, env, st = f
+        src = U.parse(st["source"], env)
+        sources = (src, ("call", "values", (src,)))
+        present = [U.parse(x, env) for x in st["present"]]
+        if t and t[0] == "local":
+            _complete_loop(R, rid, what, b, nz, t[1], sources, present)
+        elif t and t[0] == "call" and t[1] in ("collect", "from_iter") and len(t[2]) == 1:
+            _complete_chain(R, rid, what, b, nz, t[2][0], sources, present)
+        else:
+            R.anchor(rid, "%s is a table built by one insert per entry or by collect()" % what, False, b["sp"])
+    R.floor(rid, 3 * len(TABLES))
+
+
+class _Presence:
+    """Classifies a condition of the HIR: does it only say "the element's name in `from` / `to` is present"?"""
+
+    def __init__(self, nz, present):
+        self.nz = nz
+        self.present = present
+
+    def term1(self, t):
+        return t in self.present
+
+    def terms(self, t):
+        """one of the name slots, or a tuple of them (`(&a[from], &a[to])`, `a[from].as_ref().zip(a[to].as_ref())`)"""
+        return self.term1(t) or (t[0] == "tuple" and len(t[1]) > 0 and all(self.terms(x) for x in t[1]))
+
+    def all_some(self, pat):
+        key = self.nz._pat_key(pat)[0]
+        return key != "" and all(x == "Some" for x in key.replace("(", ",").replace(")", ",").split(",") if x)
+
+    def holds(self, c):
+        """c true  =>  nothing but presence"""
+        c = H.peel(c, refs=False)
+        k = c.get("k")
+        if k == "letexpr":
+            return self.all_some(c["pat"]) and self.terms(self.nz.term(c["init"]))
+        if k == "bin" and c.get("op") == "&&":
+            return self.holds(c["l"]) and self.holds(c["r"])
+        if k == "un" and c.get("op") == "!":
+            return self.fails(c["e"])
+        if k == "mcall" and c["name"] == "is_some" and not c["args"]:
+            return self.term1(self.nz.term(c["recv"]))
+        return False
+
+    def fails(self, c):
+        """c false  =>  nothing but presence"""
+        c = H.peel(c, refs=False)
+        k = c.get("k")
+        if k == "letexpr":
+            return self.nz._pat_key(c["pat"])[0] == "None" and self.term1(self.nz.term(c["init"]))
+        if k == "bin" and c.get("op") == "||":
+            return self.fails(c["l"]) and self.fails(c["r"])
+        if k == "un" and c.get("op") == "!":
+            return self.holds(c["e"])
+        if k == "mcall" and c["name"] == "is_none" and not c["args"]:
+            return self.term1(self.nz.term(c["recv"]))
+        return False
+
+    def cond(self, rec):
+        kind, node, extra = rec["kind"], rec["node"], rec["extra"]
+        if kind == "if":
+            return self.holds(node) if extra else self.fails(node)
+        if kind == "letelse":
+            return self.all_some(node["pat"]) and self.terms(self.nz.term(node["init"]))
+        if kind == "arm":
+            arm = node["arms"][extra]
+            # first-match semantics: the earlier arms must be disjoint from the all-`Some` arm (each names a `None`)
+            earlier = all("None" in self.nz._pat_key(a["pat"])[0] and "guard" not in a for a in node["arms"][:extra])
+            return "guard" not in arm and earlier and self.all_some(arm["pat"]) and self.terms(self.nz.term(node["scrut"]))
+        return False
+
+    def show(self, rec):
+        kind, node, extra = rec["kind"], rec["node"], rec["extra"]
+        if kind == "if":
+            return ("" if extra else "not ") + H.render(node)[:140]
+        if kind == "letelse":
+            return "let %s = %s else { .. }" % (H.render_pat(node["pat"]), H.render(node["init"])[:100])
+        arm = node["arms"][extra]
+        return "match %s { %s%s => .. }" % (H.render(node["scrut"])[:80], H.render_pat(arm["pat"]), " if <guard>" if "guard" in arm else "")
+
+
+def _below(root, node, stop_chain):
+    """ancestors of `node` that are not ancestors of the node whose ancestor chain is `stop_chain`"""
+    chain = H.parents_of(root, node) or []
+    return [p for p in chain if not any(p is d for d in stop_chain)]
+
+
+def _exits(R, rid, what, nz, scope, point, conds, loop_like, skip_word):
+    """Ways to leave `scope` (a loop body / an element closure) other than by an error.
+    -> rendered offenders.  `conds`: the path conditions of `point` (their exit blocks are accounted for: judged as conditions)."""
+    order = U.order_index(scope)
+    bad = []
+    for x in H.walk(scope, into_closures=False):
+        k = x.get("k")
+        if k not in ("ret", "break", "continue"):
+            continue
+        if k == "ret" and H.is_err_exit(x):
+            continue
+        inner = [p for p in (H.parents_of(scope, x) or []) if p.get("k") in ("for", "loop")]
+        if loop_like:
+            if k == "ret":
+                bad.append("`%s` leaves the function with an incomplete table" % H.render(x)[:80])
+                continue
+            if inner and "label" not in x:
+                continue                    # break / continue of a nested loop
+            if k == "break":
+                bad.append("`break` ends the loop before every entry was visited")
+                continue
+        else:
+            if k in ("break", "continue"):
+                if inner and "label" not in x:
+                    continue
+                bad.append("`%s` inside the element closure" % k)
+                continue
+            # `return ..` inside the element closure = skip (None) or a different entry
+        if any(c["exit"] is not None and any(y is x for y in H.walk(c["exit"])) for c in conds):
+            continue                        # `if c { continue }` / `let .. else { continue }`: judged as a condition
+        if order.get(id(x), 0) > order.get(id(point), 0) or U.exclusive_branches(scope, x, point):
+            continue                        # after the entry was made, or in a branch the entry is not in
+        bad.append("a `%s` before the entry is made, not of the form `if c { %s }` / `let .. else { %s }`" % (skip_word, skip_word, skip_word))
+    return bad
+
+
+def _report(R, rid, what, sp, src_ok, src_got, sources, extra, bad):
+    R.inst(rid, "%s:every-source-entry-visited" % what, src_ok, sp=sp, expect=" or ".join(U.show(x) for x in sources), got=src_got,
+           detail="the table is filled from every entry of the source map: no filter / skip / take / rev between the map and the loop")
+    R.inst(rid, "%s:skipped-only-when-a-name-is-missing" % what, not extra, sp=sp, expect="no condition besides the presence of the element's `from` and `to` names",
+           got=extra, detail="an element that has a name in both namespaces must get an entry (with its member tables): an entry that is left out "
+                             "makes every lookup below it fall back to the unchanged name")
+    R.inst(rid, "%s:filled-to-the-end" % what, not bad, sp=sp, got=bad, detail="nothing but an error leaves the loop before the last entry")
+
+
+def _complete_loop(R, rid, what, b, nz, lid, sources, present):
+    root = b["body"]
+    ins = [m for m in U.mutations_of(root, lid) if m.get("k") == "mcall" and m["name"] == "insert"]
+    decl = [n for n in H.walk(root) if n.get("k") == "let" and any(i == lid for i, _ in H.pat_bindings(n["pat"]))]
+    if not R.anchor(rid, "%s: one `let` creates the table and one insert fills it" % what, len(ins) == 1 and len(decl) == 1, b["sp"]):
+        return
+    point = ins[0]
+    dchain = H.parents_of(root, decl[0]) or []
+    between = _below(root, point, dchain)
+    P = _Presence(nz, present)
+    loops = [p for p in between if p.get("k") in ("for", "loop")]
+    elemwise = [p for p in between if p.get("k") == "mcall" and p["name"] in ("for_each", "try_for_each") and len(p["args"]) == 1
+                and H.peel(p["args"][0]).get("k") == "closure"]
+    closures = [p for p in between if p.get("k") == "closure" and not any(H.peel(e["args"][0]) is p for e in elemwise)]
+    for c in closures:
+        R.unrecognised(rid, what, "the insert sits in a closure that is not the body of for_each / try_for_each", c.get("sp"))
+    for l in loops:
+        if l.get("k") == "loop":
+            R.unrecognised(rid, what, "the insert sits in a `%s` loop (hand-written iteration)" % (l.get("src") or "loop"), l.get("sp"))
+    fors = [l for l in loops if l.get("k") == "for"]
+    if closures or len(fors) != len(loops):
+        return
+    if len(fors) + len(elemwise) != 1:
+        _report(R, rid, what, point.get("sp"), False, "%d loops between the creation of the table and the insert" % (len(fors) + len(elemwise)), sources, [], [])
+        return
+    if fors:
+        it, scope, loop_like, word = fors[0]["iter"], fors[0]["body"], True, "continue"
+    else:
+        it, scope, loop_like, word = elemwise[0]["recv"], H.peel(elemwise[0]["args"][0])["body"], False, "return"
+    itt = nz.term(it)
+    allc = U.path_conditions_ex(root, point)
+    conds = [c for c in allc if any(c["owner"] is p for p in between) or any(c["owner"] is x for p in between if p.get("k") == "block" for x in map(lambda s_: H.peel(s_, refs=False), p["stmts"]))]
+    extra = [P.show(c) for c in conds if not P.cond(c)]
+    bad = _exits(R, rid, what, nz, scope, point, conds, loop_like, word)
+    _report(R, rid, what, point.get("sp"), itt in sources, U.show(itt), sources, extra, bad)
+
+
+def _complete_chain(R, rid, what, b, nz, chain, sources, present):
+    """`<source>.map(|x| (k, v)).collect()` (every element gives an entry) or `<source>.filter_map(|x| { ..; Some((k, v)) }).collect()`
+    (the closure decides; `?` on an Option and `return None` are its ways to skip)."""
+    root = b["body"]
+    sp = b["sp"]
+    if chain[0] == "each":
+        _report(R, rid, what, sp, chain[1] in sources, U.show(chain[1]), sources, [], [])
+        return
+    node = None
+    if chain[0] == "call" and chain[1] == "filter_map" and len(chain[2]) == 2:
+        cands = [n for n in H.walk(root) if n.get("k") == "mcall" and n["name"] == "filter_map" and len(n["args"]) == 1
+                 and H.peel(n["args"][0]).get("k") == "closure" and nz.term(n) == chain]
+        node = cands[0] if len(cands) == 1 else None
+    if node is None:
+        R.unrecognised(rid, what, "the table is collected from an iterator chain other than map / filter_map(closure) over the source map: %s" % U.show(chain)[:160], sp)
+        return
+    clo = H.peel(node["args"][0])
+    P = _Presence(nz, present)
+    # the entry: the one `Some((k, v))` in value position of the closure
+    somes = [n for n in H.walk(clo["body"], into_closures=False)
+             if n.get("k") == "call" and (H.ctor_of(n) or (None, None))[1] == "Some" and len(n["args"]) == 1 and H.peel(n["args"][0]).get("k") == "tuple"]
+    if len(somes) != 1 or not _value_position(clo["body"], somes[0]):
+        R.unrecognised(rid, what, "the filter_map closure does not end in exactly one `Some((key, value))`", clo.get("sp"))
+        return
+    point = somes[0]
+    conds = U.path_conditions_ex(clo["body"], point)
+    extra = [P.show(c) for c in conds if not P.cond(c)]
+    order = U.order_index(clo["body"])
+    for x in H.walk(clo["body"], into_closures=False):
+        # `e?` on an Option inside the closure: the element is skipped when e is None
+        if x.get("k") == "try" and (x["e"].get("ty") or "").startswith("core::option::Option<") and order[id(x)] < order[id(point)] \
+                and not U.exclusive_branches(clo["body"], x, point) and not P.term1(nz.term(x["e"])):
+            extra.append("%s?" % H.render(x["e"])[:140])
+    bad = _exits(R, rid, what, nz, clo["body"], point, conds, False, "return")
+    itt = nz.term(node["recv"])
+    _report(R, rid, what, point.get("sp"), itt in sources, U.show(itt), sources, extra, bad)
+
+
+def _value_position(body, node):
+    """`node` is what `body` evaluates to on its path: reached through block tails, if branches, match arms only."""
+    chain = (H.parents_of(body, node) or []) + [node]
+    for p, nxt in zip(chain, chain[1:]):
+        k = p.get("k")
+        if k == "block" and p.get("tail") is nxt:
+            continue
+        if k == "if" and (p["then"] is nxt or p.get("else") is nxt):
+            continue
+        if k == "match" and any(a["body"] is nxt for a in p["arms"]):
+            continue
+        return False
+    return True
 
 
 def _rename(f, atoms):
